@@ -183,10 +183,12 @@ func (p *FSM) Open(_ <-chan struct{}) (uint64, error) {
 		return 0, err
 	}
 	p.metrics.applied.Store(idx)
-	p.appliedFunc(idx)
+	// A table replicated from a leader cluster reports leader indices only, the local index is unrelated to them.
 	lx, _ := readLocalIndex(db, sysLeaderIndex)
 	if lx != 0 {
 		p.appliedFunc(lx)
+	} else {
+		p.appliedFunc(idx)
 	}
 	return idx, nil
 }
@@ -315,7 +317,8 @@ func (p *FSM) Update(updates []sm.Entry) ([]sm.Entry, error) {
 	p.metrics.applied.Store(idx)
 	if ctx.leaderIndex != nil {
 		p.appliedFunc(*ctx.leaderIndex)
-	} else {
+	} else if lx, _ := readLocalIndex(db, sysLeaderIndex); lx == 0 {
+		// Only a table that records no leader index reports its local index.
 		p.appliedFunc(idx)
 	}
 	return updates, nil
